@@ -60,7 +60,7 @@ def cases(tier, rng):
     nblk = 8 if tier == "quick" else 28
     for b in range(nblk):
         out.append({"kind": "model", "block": b, "nblocks": nblk, "tmax": _tmax(tier)})
-    nrun = 10 if tier == "quick" else 300
+    nrun = 10 if tier == "quick" else 500
     for i in range(nrun):
         out.append({"kind": "run", "scene_seed": int(rng.integers(1 << 30)), "loop": bool(i % 2 == 0)})
     out.append({"kind": "run", "scene_seed": 12345, "loop": True, "all_off": True})
